@@ -7,6 +7,7 @@ package traefikoidc
 // strings, decoded cookies, structured locations) and the step runner.
 
 import (
+	"bufio"
 	"bytes"
 	"context"
 	"crypto/sha256"
@@ -645,6 +646,17 @@ type vfObserved struct {
 	Panic    interface{}
 }
 
+// vfWireSafe: printable ASCII without the bytes a request line cannot carry or that every client escapes
+func vfWireSafe(t string) bool {
+	for i := 0; i < len(t); i++ {
+		c := t[i]
+		if c <= 0x20 || c >= 0x7f || strings.IndexByte("\"<>`{}|^#", c) >= 0 {
+			return false
+		}
+	}
+	return true
+}
+
 // do sends one request and records the step
 func (w *vfWorld) do(rq vfReq) *vfObserved {
 	in := w.inst(rq.Slot)
@@ -667,6 +679,19 @@ func (w *vfWorld) do(rq vfReq) *vfObserved {
 	}
 	req.URL.RawQuery = vfEscapeQuery(tquery)
 	req.RequestURI = req.URL.RequestURI()
+	// What reaches the handler behind a real server: the request line is parsed by net/http itself
+	// (origin-form: URL holds path and query only, RequestURI the raw bytes).  A target made of
+	// wire-safe bytes only is sent exactly as given (a non-browser client does not re-escape, e.g. a
+	// literal backslash); anything else in the escaped form computed above.
+	wire := req.RequestURI
+	if vfWireSafe(rq.Target) && strings.HasPrefix(rq.Target, "/") {
+		wire = rq.Target
+	}
+	if parsed, err := http.ReadRequest(bufio.NewReader(strings.NewReader(method + " " + wire + " HTTP/1.1\r\nHost: app.example.test\r\n\r\n"))); err == nil {
+		parsed.RemoteAddr = req.RemoteAddr
+		parsed.Body = http.NoBody
+		req = parsed.WithContext(req.Context())
+	}
 	if rq.Accept != "" {
 		req.Header.Set("Accept", rq.Accept)
 	} else if rq.AcceptJS {
